@@ -62,7 +62,9 @@ def make_jobs(which, tier):
         # (3) pairs of environment dimensions under the two default configurations
         for cfg in reps[:1] + [c for c in reps if c['climb_descent_mode'] == 1][:1]:
             for (d1, v1), (d2, v2) in itertools.combinations(dims, 2):
-                jobs.append(dict(kind=f'env:{d1}+{d2}', fixed=cfg, N=N, which=which, env={d1: v1, d2: v2}, deadline_s=dl))
+                # window sizes x thrust categories multiply the paths per point: that pair runs on 2 points
+                n_pair = 2 if {d1, d2} == {'windows', 'cats'} else N
+                jobs.append(dict(kind=f'env:{d1}+{d2}', fixed=cfg, N=n_pair, which=which, env={d1: v1, d2: v2}, deadline_s=dl))
     return jobs, N
 
 
